@@ -2,6 +2,7 @@
 # tools/regress.sh [PROPS]  -- all benign refactorings must be silent, all seeded changes caught (optionally only for the given checks, comma-separated)
 cd /verif
 export VERIF_PROPS=$1
+echo "$1" > /tmp/regress_props.txt
 B=$(ls -d benign/C*/ 2>/dev/null | sort -u)
 tools/benign_eval.py --jobs 14 --out /tmp/regress_benign.json $B > /tmp/regress_benign.log 2>&1
 tools/seed_eval.py --jobs 14 --out /tmp/regress_seeded.json seeded/C* > /tmp/regress_seeded.log 2>&1
